@@ -977,4 +977,109 @@ theorem C09_face_tables_closed :
 example : tableClosed 12 [[0, 5, 4, 1], [1, 4, 3, 2], [5, 11, 10, 4], [4, 10, 9, 3], [3, 9, 8, 2], [0, 6, 11, 5],
     [6, 7, 10, 11], [7, 8, 9, 11], [1, 2, 8, 7], [0, 1, 7, 6]] = false := by decide
 example : (faceTable 16).map List.length = some 10 := by decide
+
+/-! ## variable tables: the KEY is the identity of a variable, the attribute's own name is data (round 5, seeded C09-10)
+
+`nodal_data` / `elemental_data` are dicts key -> attribute, and every attribute also carries a `.name` of its own.  The two
+agree for tables filled by the readers and by `update_data`, but `set_attribute_data(key, data, name=...)` and
+`table[key2] = table[key]` make the relation key -> name arbitrary and many-to-one.  The `FEM` model above identifies a
+variable by its key (`Nat × Attr α`) and has no name at all; here the name is put back in to state what a sub-mesh operation
+may and may not do with it. -/
+
+/-- one entry of a variable table: the table key, the attribute's own `.name`, the payload -/
+structure Entry (β : Type) where
+  key : Nat
+  name : Nat
+  val : β
+deriving Repr, DecidableEq
+
+/-- `{key: f(value) for key, value in self.items()}`: `FEMAttributes.filter_with_ids` and the tables of every `cut_*` -/
+def mapTable {β γ} (f : β → γ) (t : List (Entry β)) : List (Entry γ) := t.map fun e => ⟨e.key, e.name, f e.val⟩
+
+/-- `table[key]` -/
+def tableAt {β} (t : List (Entry β)) (k : Nat) : Option β := (t.find? (·.key == k)).map (·.val)
+
+/-- dict assignment `d[k] = e` (replaces the entry stored under `k`, else appends) -/
+def dictSet {β} (k : Nat) (e : Entry β) : List (Entry β) → List (Entry β)
+  | [] => [{ e with key := k }]
+  | x :: r => if x.key == k then { e with key := k } :: r else x :: dictSet k e r
+
+/-- the LIST form of the `FEMAttributes` constructor, `{a.name: a for a in attributes}`: the table is re-keyed by name -/
+def rekeyByName {β} (t : List (Entry β)) : List (Entry β) := t.foldl (fun d e => dictSet e.name e d) []
+
+/-- **C09_table_by_key.** A table rebuilt key by key binds every key to the transformed value of that same key, whatever
+    the attribute names are (equal to the key, unrelated, shared by several keys): `values attached` needs no hypothesis on
+    the names. -/
+theorem C09_table_by_key {β γ} (f : β → γ) (t : List (Entry β)) (k : Nat) :
+    tableAt (mapTable f t) k = (tableAt t k).map f ∧ (mapTable f t).map (·.key) = t.map (·.key) := by
+  refine ⟨?_, by simp [mapTable]⟩
+  induction t with
+  | nil => rfl
+  | cons e r ih =>
+    simp only [mapTable, tableAt, List.map_cons, List.find?_cons] at ih ⊢
+    cases h : (e.key == k) with
+    | true => simp
+    | false => simpa using ih
+
+/-- the model's tables are rebuilt key by key: the keys of the filtered nodal / elemental tables are those of the input -/
+theorem C09_filter_keeps_keys {α} (nodal : List (Nat × Attr α)) (elemental : List (Nat × EBlocks α)) (ids : List Id) :
+    (∀ out, filterNodal nodal ids = some out → out.map (·.1) = nodal.map (·.1)) ∧
+    (filterElemental elemental ids).map (·.1) = elemental.map (·.1) := by
+  refine ⟨?_, by simp [filterElemental]⟩
+  induction nodal with
+  | nil => intro out h; simp [filterNodal, gather] at h; subst h; rfl
+  | cons kv r ih =>
+    intro out h
+    simp only [filterNodal, gather] at h
+    cases h1 : kv.2.filterWithIds ids with
+    | none => simp [h1] at h
+    | some a =>
+      cases h2 : gather (fun (kv : Nat × Attr α) => (kv.2.filterWithIds ids).map fun a => (kv.1, a)) r with
+      | none => simp [h1, h2] at h
+      | some o =>
+        simp [h1, h2] at h
+        subst h
+        simp [ih o (by simpa [filterNodal] using h2)]
+
+/-- **C09_table_rekey_by_name_counterexample** (seeded C09-10).  Key 1 ('T_prev') is bound to an attribute that still
+    carries the name of key 0 ('T').  Key by key both variables survive; re-keyed by name - the list form of the
+    constructor - key 1 is lost and key 0 holds the OTHER variable's values.  No id, node or element is wrong. -/
+theorem C09_table_rekey_by_name_counterexample :
+    let t : List (Entry Nat) := [⟨0, 0, 10⟩, ⟨1, 0, 20⟩]
+    (tableAt (mapTable (· + 1) t) 0 = some 11 ∧ tableAt (mapTable (· + 1) t) 1 = some 21) ∧
+    tableAt (rekeyByName (mapTable (· + 1) t)) 1 = none ∧ tableAt (rekeyByName (mapTable (· + 1) t)) 0 = some 21 := by decide
+
+theorem dictSet_append {β} (e : Entry β) (acc : List (Entry β)) (h : ∀ x ∈ acc, x.key ≠ e.key) :
+    dictSet e.key e acc = acc ++ [e] := by
+  induction acc with
+  | nil => simp [dictSet]
+  | cons x r ih =>
+    have hx : (x.key == e.key) = false := by simpa using h x (by simp)
+    simp [dictSet, hx, ih (fun y hy => h y (by simp [hy]))]
+
+theorem rekey_foldl {β} (t acc : List (Entry β)) (hn : ∀ e ∈ t, e.name = e.key)
+    (hd : (acc ++ t).Pairwise (fun a b => a.key ≠ b.key)) :
+    t.foldl (fun d e => dictSet e.name e d) acc = acc ++ t := by
+  induction t generalizing acc with
+  | nil => simp
+  | cons e r ih =>
+    have he : e.name = e.key := hn e (by simp)
+    have hacc : ∀ x ∈ acc, x.key ≠ e.key := by
+      intro x hx
+      have := List.pairwise_append.mp hd
+      exact this.2.2 x hx e (by simp)
+    simp only [List.foldl_cons, he, dictSet_append e acc hacc]
+    rw [ih (acc ++ [e]) (fun y hy => hn y (by simp [hy])) (by simpa using hd)]
+    simp
+
+/-- **C09_table_rekey_blind.** On a table whose every attribute is named after its key (what the readers and
+    `update_data` build: every table femio's own tests and a check with key = name ever see) re-keying by name is the
+    identity - the reason a fresh-from-file mesh cannot distinguish the two constructors and the key -> name relation has
+    to be a generator dimension. -/
+theorem C09_table_rekey_blind {β} (t : List (Entry β)) (hn : ∀ e ∈ t, e.name = e.key)
+    (hd : t.Pairwise (fun a b => a.key ≠ b.key)) : rekeyByName t = t := by
+  simpa [rekeyByName] using rekey_foldl t [] hn (by simpa using hd)
+
+example : rekeyByName ([⟨3, 3, 10⟩, ⟨1, 1, 20⟩, ⟨2, 2, 5⟩] : List (Entry Nat)) = [⟨3, 3, 10⟩, ⟨1, 1, 20⟩, ⟨2, 2, 5⟩] := by decide
+example : tableAt (mapTable (· * 2) ([⟨3, 7, 10⟩, ⟨1, 7, 20⟩] : List (Entry Nat))) 1 = some 40 := by decide
 end Femio.C09
